@@ -10,6 +10,7 @@ import (
 	"hash/fnv"
 	"os"
 	"path/filepath"
+	"runtime/debug"
 	"sort"
 	"strings"
 	"sync"
@@ -320,7 +321,7 @@ func registerReplay[C any](id string, prop func(C) *Outcome) {
 		if err := json.Unmarshal(raw, &c); err != nil {
 			return nil, err
 		}
-		return prop(c), nil
+		return callProp(prop, c), nil
 	}
 }
 
@@ -332,12 +333,57 @@ func runCase[C any](id string, c C, prop func(C) *Outcome) *Outcome {
 		panic(fmt.Sprintf("case not serialisable: %v", err))
 	}
 	r.writeAhead(cj)
-	o := prop(c)
+	o := callProp(prop, c)
 	r.record(cj, o)
 	if o.Fail != "" {
 		r.writeFail(cj, o)
 	}
 	return o
+}
+
+// callProp runs the property. A panic that comes out of the library on the calling goroutine (e.g. while the
+// harness registers a valid service or makes a call) is a finding like any other - "never panics" is part of
+// every property here - and becomes a failed outcome with the case as replay; a panic raised by the harness
+// itself is passed on.
+func callProp[C any](prop func(C) *Outcome, c C) (o *Outcome) {
+	defer func() {
+		if p := recover(); p != nil {
+			stack := string(debug.Stack())
+			// frames between the panic and this function: does the panic originate in the library?
+			lines := strings.Split(stack, "\n")
+			origin, first := "", ""
+			seenPanic := false
+			for _, l := range lines {
+				l = strings.TrimSpace(l)
+				if strings.HasPrefix(l, "panic(") {
+					seenPanic = true
+					continue
+				}
+				if !seenPanic || strings.HasPrefix(l, "/") || l == "" {
+					continue
+				}
+				if first == "" && !strings.HasPrefix(l, "runtime.") {
+					first = l
+				}
+				// whose code was running (possibly inside the standard library on its behalf) when it happened?
+				if strings.HasPrefix(l, "github.com/fullstorydev/grpchan") {
+					origin = first
+					break
+				}
+				if strings.HasPrefix(l, "verifharness.") {
+					break
+				}
+			}
+			if origin != "" {
+				o = &Outcome{NonTrivial: true}
+				o.failf("the library panicked on the caller's goroutine: %v (raised in %s)", p, origin)
+				o.Observed = map[string]interface{}{"stack": stack}
+				return
+			}
+			panic(p)
+		}
+	}()
+	return prop(c)
 }
 
 // runProp is the standard shape of a check: draw a case, run the property, record.
